@@ -258,7 +258,8 @@ class Frame:
 
 
 class State:
-    __slots__ = ("guard", "frames", "cur_exc", "tid", "status", "result", "prio", "held", "park", "cg", "orig")
+    __slots__ = ("guard", "frames", "cur_exc", "tid", "status", "result", "prio", "held", "park", "cg", "orig",
+                 "resume")
 
     def __init__(self, guard, frames, tid=0):
         self.guard = guard
@@ -274,16 +275,22 @@ class State:
         # fork bookkeeping: stack of (guard before the fork, share of that fork this state still represents);
         # when sibling pieces re-merge to a full share the guard is restored exactly (no formula growth)
         self.orig = ()
+        self.resume = False  # Engine B: the parked operation is to be performed now
 
     def copy(self, guard=None):
         s = State(self.guard if guard is None else guard, [f.copy() for f in self.frames], self.tid)
         s.cur_exc = self.cur_exc
         s.held = self.held
         s.orig = self.orig
+        s.park = self.park
+        s.resume = self.resume
         return s
 
     def key(self):
-        return tuple((id(f.ci), f.pc, f.phase) for f in self.frames)
+        k = tuple((id(f.ci), f.pc, f.phase) for f in self.frames)
+        if self.status != "run":
+            k = k + (self.status, park_key(self.park))
+        return k
 
     def compute_prio(self):
         v = []
@@ -311,6 +318,12 @@ def mark_fork(guard_before, pieces):
         p.orig = base + (top,)
 
 
+def park_key(info):
+    if info is None:
+        return None
+    return tuple(id(x) if isinstance(x, VObj) else x for x in info if not isinstance(x, (Sym, Union)))
+
+
 def same_value(a, b):
     if a is b:
         return True
@@ -332,7 +345,7 @@ def same_value(a, b):
             return True
         return False
     if ta is SlotRef:
-        return a.lst is b.lst and a.j == b.j
+        return a.lst is b.lst and a.j == b.j and a.before == b.before
     if ta is VMethod:
         return a.func is b.func and a.self is b.self
     if ta is VBuiltinMethod:
@@ -439,6 +452,8 @@ class ModelEval:
 
 # --------------------------------------------------------------------------- the machine
 
+_MAY_PARK = {"CALL", "CALL_FUNCTION_EX", "BEFORE_WITH", "WITH_EXCEPT_START", "LOAD_ATTR", "STORE_ATTR", "FOR_ITER",
+             "BINARY_SUBSCR", "STORE_SUBSCR", "DELETE_SUBSCR", "CONTAINS_OP", "GET_ITER", "LOAD_SUPER_ATTR"}
 JUMPED = object()
 from .values import MISSING  # noqa: E402
 _ATOM_TYPES = (int, str, bytes, bool, float, type(None), complex)
@@ -494,6 +509,7 @@ class VM:
         self.nrestored = 0
         self.check_restore = bool(__import__('os').environ.get('VF_CHECK_RESTORE'))
         self.named = {}
+        self.pending_defs = []
         self.name_threshold = int(__import__('os').environ.get('VF_STATE_T', '48'))
         self.access_log = None  # Engine B: list of field accesses for the lockset analysis
         bexp.namer = self.name_guard
@@ -516,10 +532,17 @@ class VM:
             return hit[0]
         v = fresh("d")
         v.defn = g
-        self.solver.add(to_z3(v) == to_z3(g))
+        self.pending_defs.append((v, g))
         self.named[g.id] = (v, g)
         self.defs.append((v, g))
         return v
+
+    def flush_defs(self):
+        """hand the definitions of named guards to the solver (deferred: conversion to z3 is batched)"""
+        if self.pending_defs:
+            pend, self.pending_defs = self.pending_defs, []
+            for v, g in pend:
+                self.solver.add(to_z3(v) == to_z3(g))
 
     def feasible(self, g: B) -> bool:
         if g is FALSE:
@@ -531,6 +554,7 @@ class VM:
         hit = self.feas.get(g.id)
         if hit is not None:
             return hit[0]
+        self.flush_defs()
         for m in self.model_pool:
             if m.holds(g):
                 self.feas[g.id] = (True, g)
@@ -664,6 +688,14 @@ class VM:
                 self._insert(pending, s2, out)
         return out
 
+    def run_nested(self, states, root_guard):
+        """run a separate work list while another run() is in progress (saves and restores its bookkeeping)"""
+        saved = (self.root_guard, self.lost, self.forks, self.landed, getattr(self, "cur", None))
+        try:
+            return self.run(states, root_guard)
+        finally:
+            self.root_guard, self.lost, self.forks, self.landed, self.cur = saved
+
     def _insert(self, pending, s, out):
         if s.guard is FALSE:
             return
@@ -706,7 +738,7 @@ class VM:
             s.orig = ()
         if not restored:
             s.guard = OR(g, other.guard)
-            if s.guard.sz > self.name_threshold:
+            if s.guard.sz > self.name_threshold and bexp.size(s.guard, self.name_threshold + 1) > self.name_threshold:
                 s.guard = self.name_guard(s.guard)
         s.compute_prio()
         pending[k] = s
@@ -720,6 +752,9 @@ class VM:
             self.cur = s
             if self.trace:
                 print(f"  [{bexp.show(s.guard, 2)}] {f.ci.code.co_name}:{f.pc} {ins.opname} {ins.argrepr}  stk={len(f.stack)}")
+            saved = None
+            if self.sched is not None and ins.opname in _MAY_PARK:
+                saved = (list(f.stack), f.kwnames)
             try:
                 h = _DISPATCH.get(ins.opname)
                 if h is None:
@@ -728,6 +763,11 @@ class VM:
             except VMRaise as e:
                 r = self.unwind(s, e.exc)
             except Park as p:
+                # stop before the operation: restore the operand stack, the instruction is re-executed on resume
+                if saved is None:
+                    raise Unsupported(f"park at {ins.opname}")
+                f.stack[:] = saved[0]
+                f.kwnames = saved[1]
                 s.status = "parked"
                 s.park = p.info
                 return [s] + self.forks
